@@ -28,7 +28,7 @@ def run(check):
         return holder['m']
 
     check.run_rule('C02.R1', lambda c: rule_embed_buckets(c, model(), {
-        'kinds': 'C02.R1', 'clear_must': 'C02.R2', 'clear_only': None, 'order': 'C02.R6'}))
+        'kinds': 'C02.R1', 'clear_must': 'C02.R2', 'clear_only': 'C02.R2', 'order': 'C02.R6'}))
     check.run_rule('C02.R3', lambda c: rule_embed_dupes(c, model(), 'C02.R3'))
     check.run_rule('C02.R4', lambda c: rule_embed_flags(c, model(), 'C02.R4'))
 
